@@ -15,6 +15,7 @@ CONSTANTS
 VIEW view
 INVARIANT TypeOK
 INVARIANT NoStale
+INVARIANT GeoCacheCurrent
 INVARIANT MapsCurrent
 INVARIANT Observing
 PROPERTY AppendOnly
